@@ -267,3 +267,9 @@ def c05():
 def c06():
     from . import paths_engine
     return paths_engine.c06()
+
+
+@prop("C14")
+def c14():
+    from . import heap_engine
+    return heap_engine.c14()
